@@ -8,6 +8,7 @@ import (
 	"log"
 	"net"
 	"os"
+	"runtime"
 	"sort"
 	"strings"
 	"sync/atomic"
@@ -73,7 +74,9 @@ func hangProbe(st *stack.Stack, victim *wire.Client) bool {
 // hangProbe confirms as a hang, which is reported as a failure of the case.
 func undecidedOrHang(t *rapid.T, rec *evid.Rec, st *stack.Stack, victim *wire.Client, err error, msg string) {
 	if err == wire.ErrTimeout && hangProbe(st, victim) {
-		t.Fatalf("%s: no reply within %v, and still none ten seconds later, while five fresh connections were each answered within two seconds: the request hangs", msg, victim.Timeout)
+		var dump [1 << 17]byte
+		n := runtime.Stack(dump[:], true)
+		t.Fatalf("%s: no reply within %v, and still none ten seconds later, while five fresh connections were each answered within two seconds: the request hangs; goroutines:\n%s", msg, victim.Timeout, dump[:n])
 	}
 	undecided(t, rec, msg)
 }
@@ -115,12 +118,20 @@ func mkValue(seed uint32, n int) []byte {
 // 1095..1097 and 2192 sit on the chunk payload boundaries of one-byte keys (payload 1096)
 var valueSizes = []int{0, 1, 2, 7, 30, 1095, 1096, 1097, 1500, 2192, 5000}
 
+// genStoreValue is genValue plus, rarely, a value of more than 64 KiB.  Only for
+// set/add/replace: together with the appends of a long sequence an item must
+// stay within what the chunked handler is built for (999 chunks, i.e. about
+// 846 000 bytes under a 250-byte key).
+func genStoreValue(t *rapid.T, label string) []byte {
+	if rapid.IntRange(0, 39).Draw(t, label+"Big") == 0 {
+		size := rapid.SampledFrom([]int{65536, 70000, 120000}).Draw(t, label+"BigSize")
+		return mkValue(rapid.Uint32Range(0, 999).Draw(t, label+"Seed"), size)
+	}
+	return genValue(t, label)
+}
+
 func genValue(t *rapid.T, label string) []byte {
 	size := rapid.SampledFrom(valueSizes).Draw(t, label+"Size")
-	if rapid.IntRange(0, 39).Draw(t, label+"Big") == 0 {
-		// rarely: more than 64 KiB, more than a socket buffer
-		size = rapid.SampledFrom([]int{65536, 70000, 300000}).Draw(t, label+"BigSize")
-	}
 	if size >= 1500 {
 		size += rapid.IntRange(-3, 3).Draw(t, label+"Jitter")
 	}
@@ -209,7 +220,7 @@ func genCmd(t *rapid.T, o cmdGenOpts, now int64) wire.Cmd {
 	switch k {
 	case wire.Set, wire.Add, wire.Replace:
 		c.Key = rapid.SampledFrom(o.Keys).Draw(t, "key")
-		c.Value = genValue(t, "val")
+		c.Value = genStoreValue(t, "val")
 		c.Flags = genFlags(t, "flags")
 		c.Exptime = ttl()
 		if o.Binary {
